@@ -838,7 +838,7 @@ def p_src(p):
         if b[0] in sym and len(a) == 2:
             return f"({a[0]} {sym[b[0]]} {a[1]})"
         if b[0] == "minus" and len(a) == 1:
-            return f"(-({a[0]}))" if a[0].startswith("[") else f"(- {a[0]})"
+            return f"(-({a[0]}))"  # call syntax: `- X` would chain with what follows
         if b[0] == "cmp" and len(a) == len(b[1]) + 1:
             out = a[0]
             for op, x in zip(b[1], a[1:]):
@@ -1180,6 +1180,19 @@ def gen_cases(ctx):
 
 
 # ----------------------------------------------------------------------------- evaluation
+
+def run_progs(progs, timeout=10.0):
+    """run_prog, then re-run alone and with a long limit every case that hit the per-case wall-clock
+    limit: on a loaded machine a worker can be starved; only a repeatable hang is an observation"""
+    res = common.run_prog(progs, timeout=timeout)
+    def hung(r):
+        return r.get("status") in ("hang", "abort") or any(x.get("status") in ("hang", "abort") for x in r.get("results", []))
+    idx = [i for i, r in enumerate(res) if hung(r)]
+    for i in idx[:50]:
+        res[i] = common.run_prog([progs[i]], timeout=120.0)[0]
+    return res
+
+
 def observed_match(c, r):
     """('ok', arm, {var: value}) | ('err',) | (crash status,)"""
     if "results" in r:
@@ -1348,7 +1361,7 @@ def ann_types(c):
 
 def evaluate_matches(ctx, cases, runner):
     progs = [[PRELUDE, c["src"]] for c in cases]
-    res = common.run_prog(progs, timeout=10.0)
+    res = run_progs(progs)
     mres = common.run_model(runner, [c["model"] for c in cases]) if runner else [None] * len(cases)
     bad = []
     stats = {"ok": 0, "err": 0, "parse": 0, "skipped": 0, "crash": 0, "model_compared": 0}
@@ -1416,7 +1429,7 @@ def gen_is_cases():
 
 
 def evaluate_is(ctx, cases, runner):
-    res = common.run_prog([[PRELUDE, c["src"]] for c in cases], timeout=10.0)
+    res = run_progs([[PRELUDE, c["src"]] for c in cases])
     ml = [c["model"] for c in cases if c["model"]]
     mres = iter(common.run_model(runner, ml)) if runner else iter([])
     bad = []
@@ -1552,7 +1565,7 @@ def gen_hist(rng, nsteps):
 
 
 def evaluate_hists(ctx, hists, runner):
-    res = common.run_prog([h["stmts"] for h in hists], timeout=20.0)
+    res = run_progs([h["stmts"] for h in hists], timeout=20.0)
     mres = common.run_model(runner, [h["model"] for h in hists]) if runner else [None] * len(hists)
     bad = []
     stats = {"statements": 0, "raised": 0, "completed": 0, "is_reads": 0, "writes_checked": 0, "model_steps_compared": 0, "by_stmt": {}}
@@ -1628,7 +1641,7 @@ def gen_conv_cases():
 
 def evaluate_conv(ctx, cases):
     """in-language only (the conversion functions are not modelled): when T(v) returns, `T(v) is T`"""
-    res = common.run_prog([[PRELUDE, c["src"]] for c in cases], timeout=10.0)
+    res = run_progs([[PRELUDE, c["src"]] for c in cases])
     bad, stats = [], {"returned": 0, "raised": 0, "skipped_F16": 0}
     for c, r in zip(cases, res):
         rr = r["results"][-1] if "results" in r else r
